@@ -263,6 +263,109 @@ theorem discovery_routing (registered : List Nat) (r : Resp) :
     have hm : r.token ∉ registered := by simpa using h'
     simp [h', hm]
 
+/-! ### discovery registration: a running discovery keeps its receiver whatever other calls do -/
+
+/-- at most one registered discovery per token -/
+def UniqueTok (s : List (Nat × Nat)) : Prop := s.Pairwise (fun a b => a.2 ≠ b.2)
+
+theorem dstep_start (s : List (Nat × Nat)) (id tok : Nat) :
+    dstep s (.start id tok) = if s.any (fun e => e.2 == tok) then (s, .refused) else (s ++ [(id, tok)], .registered) := rfl
+theorem dstep_finish (s : List (Nat × Nat)) (id : Nat) : dstep s (.finish id) = (s.filter (fun e => e.1 != id), .done) := rfl
+theorem dstep_resp (s : List (Nat × Nat)) (r : Resp) :
+    dstep s (.resp r) = match s.find? (fun e => e.2 == r.token) with
+      | some e => (s, .toReceiverOf e.1 r.conn r.tag)
+      | none => (s, .toDefault r.conn r.tag) := rfl
+
+theorem dstep_unique (s : List (Nat × Nat)) (ev : DEv) (h : UniqueTok s) : UniqueTok (dstep s ev).1 := by
+  unfold UniqueTok at *
+  cases ev with
+  | start id tok =>
+    rw [dstep_start]
+    by_cases ha : s.any (fun e => e.2 == tok) = true
+    · simp only [ha, if_true]; exact h
+    · simp only [ha, Bool.false_eq_true, if_false]
+      rw [List.pairwise_append]
+      refine ⟨h, List.pairwise_singleton _ _, ?_⟩
+      intro a ha' b hb
+      simp only [List.mem_singleton] at hb
+      subst hb
+      intro e
+      apply ha
+      simp only [List.any_eq_true, beq_iff_eq]
+      exact ⟨a, ha', e⟩
+  | finish id => rw [dstep_finish]; exact List.Pairwise.filter _ h
+  | resp r => rw [dstep_resp]; split <;> exact h
+
+theorem find_owner (s : List (Nat × Nat)) (id tok : Nat) (hu : UniqueTok s) (hm : (id, tok) ∈ s) :
+    s.find? (fun e => e.2 == tok) = some (id, tok) := by
+  induction s with
+  | nil => cases hm
+  | cons a t ih =>
+    unfold UniqueTok at hu
+    rw [List.pairwise_cons] at hu
+    rcases List.mem_cons.mp hm with rfl | hm'
+    · simp
+    · have hne : a.2 ≠ tok := hu.1 (id, tok) hm'
+      have : (a.2 == tok) = false := by simpa using hne
+      simp only [List.find?_cons, this]
+      exact ih hu.2 hm'
+
+/-- **A refused call changes nothing**: a `DiscoveryRequest` whose token belongs to a running discovery is refused and
+    the registration table is left exactly as it was. -/
+theorem refused_start_changes_nothing (s : List (Nat × Nat)) (id id' tok : Nat) (hm : (id, tok) ∈ s) :
+    dstep s (.start id' tok) = (s, .refused) := by
+  rw [dstep_start]
+  have : s.any (fun e => e.2 == tok) = true := by
+    simp only [List.any_eq_true, beq_iff_eq]; exact ⟨(id, tok), hm, rfl⟩
+  simp [this]
+
+/-- **The registration of a running discovery is stable**: whatever other discoveries start (also with the same
+    token), finish or receive in the meantime, as long as discovery `id` itself has not finished it stays registered. -/
+theorem owner_stable (evs : List DEv) : ∀ (s : List (Nat × Nat)) (id tok : Nat), UniqueTok s → (id, tok) ∈ s →
+    (∀ ev ∈ evs, ev ≠ .finish id) → UniqueTok (drun s evs) ∧ (id, tok) ∈ drun s evs := by
+  induction evs with
+  | nil => intro s id tok hu hm _; exact ⟨hu, hm⟩
+  | cons ev evs ih =>
+    intro s id tok hu hm hne
+    have hu' := dstep_unique s ev hu
+    have hm' : (id, tok) ∈ (dstep s ev).1 := by
+      cases ev with
+      | start id' tok' =>
+        rw [dstep_start]
+        by_cases ha : s.any (fun e => e.2 == tok') = true
+        · simp only [ha, if_true]; exact hm
+        · simp only [ha, Bool.false_eq_true, if_false]; exact List.mem_append_left _ hm
+      | finish id' =>
+        have : id' ≠ id := by
+          intro e; exact hne (.finish id') (List.mem_cons_self) (by rw [e])
+        rw [dstep_finish]
+        simp only [List.mem_filter, bne_iff_ne, ne_eq]
+        exact ⟨hm, fun e => this e.symm⟩
+      | resp r => rw [dstep_resp]; split <;> exact hm
+    have := ih (dstep s ev).1 id tok hu' hm' (fun e he => hne e (List.mem_cons_of_mem _ he))
+    simpa [drun] using this
+
+/-- **Responses go to the receiver registered for their token** (the conclusion of C10's last clause): after any
+    history in which discovery `id` (token `tok`) registered and has not finished, a response carrying `tok` is handed to
+    the receiver of `id`, with the connection of the peer that sent it; a response whose token no running discovery
+    registered goes to the server's ordinary handler. -/
+theorem discovery_delivery (evs : List DEv) (s : List (Nat × Nat)) (id tok : Nat) (r : Resp) (hu : UniqueTok s)
+    (hm : (id, tok) ∈ s) (hne : ∀ ev ∈ evs, ev ≠ .finish id) (ht : r.token = tok) :
+    (dstep (drun s evs) (.resp r)).2 = .toReceiverOf id r.conn r.tag := by
+  obtain ⟨hu', hm'⟩ := owner_stable evs s id tok hu hm hne
+  rw [dstep_resp, ht, find_owner _ id tok hu' hm']
+
+theorem unregistered_to_default (s : List (Nat × Nat)) (r : Resp) (h : ∀ e ∈ s, e.2 ≠ r.token) :
+    (dstep s (.resp r)).2 = .toDefault r.conn r.tag := by
+  have : s.find? (fun e => e.2 == r.token) = none := by
+    rw [List.find?_eq_none]; intro e he; simpa using h e he
+  rw [dstep_resp, this]
+
+/-- Non-vacuity: discovery 1 (token 7) runs; discovery 2 with the same token is refused and ends; the response with token 7
+    still reaches receiver 1; a response with token 8 goes to the default handler; after discovery 1 ends so does token 7. -/
+example : dtrace [] [.start 1 7, .start 2 7, .finish 2, .resp ⟨7, 40, 0⟩, .resp ⟨8, 41, 1⟩, .finish 1, .resp ⟨7, 40, 2⟩]
+    = [.registered, .refused, .done, .toReceiverOf 1 40 0, .toDefault 41 1, .done, .toDefault 40 2] := by decide
+
 /-! Non-vacuity: peer 1 sends three datagrams (one to a multicast group), peer 2 sends garbage in between and gets closed. -/
 example : view (run {} [.dgram ⟨1, .concrete 9, true, 10, 0⟩, .dgram ⟨2, .unspecified, false, 20, 0⟩,
     .dgram ⟨1, .concrete 9, true, 11, 0⟩, .dgram ⟨2, .unspecified, true, 21, 0⟩, .dgram ⟨2, .unspecified, false, 22, 0⟩,
@@ -283,4 +386,13 @@ open CoapVerif.Props.C10
 #print axioms non_interference
 #print axioms in_arrival_order
 #print axioms discovery_routing
+#print axioms dstep_start
+#print axioms dstep_finish
+#print axioms dstep_resp
+#print axioms find_owner
+#print axioms dstep_unique
+#print axioms refused_start_changes_nothing
+#print axioms owner_stable
+#print axioms discovery_delivery
+#print axioms unregistered_to_default
 end Audit
